@@ -48,6 +48,7 @@ type Options struct {
 	C07         bool // schedule independence / termination / no error
 	C08         bool // emission discipline, routing, WaitingFor, wire round trip, secrets
 	FlipProbes  bool // leaf probes with the broadcast flag flipped (C08)
+	FlipThenOne bool // + after every flipped hand-over, every single further proper delivery: no influence allowed
 	MaxStates   int
 	Workers     int
 	JointValidate int // number of 1-deviation traces to validate jointly (in addition to FIFO and terminals); -1 = all
@@ -538,6 +539,77 @@ func Explore(r *core.Run, sc Scenario, opt Options) (st Stats) {
 			}
 		}
 		st.FlipProbes = len(probes)
+		if opt.FlipThenOne {
+			// a flipped message may be stored and looked at later (e.g. when its round starts): after the flipped
+			// hand-over F(id), every proper delivery D(id2) of another message must leave the party exactly where
+			// D(id2) alone leaves it
+			type probe2 struct {
+				l       *explore.LState
+				id, id2 string
+			}
+			var p2 []probe2
+			for _, pr := range probes {
+				done := map[string]bool{}
+				for _, d := range pr.l.Delivered {
+					done[d] = true
+				}
+				if done[pr.id] {
+					// a flipped RE-delivery of a message that was already delivered properly is a replay (which the
+					// library leaves to the transport: "we expect the caller to apply replay and spoofing
+					// protection"); the property quantifies over flipped messages, not over flipped replays
+					continue
+				}
+				for id2, m2 := range sys.Msgs {
+					if id2 == pr.id || done[id2] {
+						continue
+					}
+					for _, t := range m2.To {
+						if t == pr.l.Node {
+							p2 = append(p2, probe2{pr.l, pr.id, id2})
+						}
+					}
+				}
+			}
+			sort.Slice(p2, func(i, j int) bool {
+				a, b := p2[i], p2[j]
+				if a.l.Node != b.l.Node {
+					return a.l.Node < b.l.Node
+				}
+				if a.l.ID != b.l.ID {
+					return a.l.ID < b.l.ID
+				}
+				if a.id != b.id {
+					return a.id < b.id
+				}
+				return a.id2 < b.id2
+			})
+			outs2 := make([]*out, len(p2))
+			sig := func(l *explore.LState) string {
+				var em []string
+				for _, id := range l.Emitted {
+					e := sys.Msg(id)
+					em = append(em, canonEmit(e.Type, e.Bcast, e.To))
+				}
+				sort.Strings(em)
+				return fmt.Sprintf("round=%d ends=%d emitted=%v waiting=%v", l.Obs.Round, len(l.Obs.Ends), em, l.Obs.Waiting)
+			}
+			core.ParallelFor(len(p2), opt.Workers, func(i int) {
+				pr := p2[i]
+				dv := explore.Event{Kind: 'D', Node: pr.l.Node, Msg: pr.id2}
+				with := sys.ProbeSeq(pr.l, explore.Event{Kind: 'F', Node: pr.l.Node, Msg: pr.id}, dv)
+				without := sys.ProbeSeq(pr.l, dv)
+				if a, b := sig(with), sig(without); a != b {
+					m := sys.Msg(pr.id)
+					outs2[i] = &out{"flagflip/influences-later-delivery/" + m.Type, fmt.Sprintf("a %s handed over with the broadcast flag flipped changes what the next proper delivery does: with it [%s], without it [%s]", m.Type, a, b), append(histOf(pr.l), "F<-"+pr.id, "<-"+pr.id2)}
+				}
+			})
+			for _, o := range outs2 {
+				if o != nil {
+					viol(o.key, o.what, o.rec)
+				}
+			}
+			st.FlipProbes += len(p2)
+		}
 	}
 
 	// ---- conformance of the decomposition: joint replays ----
